@@ -225,13 +225,13 @@ def check_mapping(c, s, t, sgeo, tgeo, mapping, colmap, distinct, fail):
             if s.atm == 0:
                 want = list(s.atmblocks.keys())[0]
                 okc = mapping.get(nm) == want
-                if c.prove(z3.BoolVal(bool(okc)), 'atmosphere block -> the single source atmosphere block') == 'sat':
+                if c.holds(bool(okc), 'atmosphere block -> the single source atmosphere block') == 'sat':
                     fail('atmosphere/not-single-source-block', 'target atmosphere block %r -> %r, expected %r' % (nm, mapping.get(nm), want))
             elif s.atm == 1 and t.atm == 1:
                 got = mapping.get(nm)
                 if got not in s.atmblocks:
-                    c.prove(False, 'atmosphere block -> a source atmosphere block')
-                    fail('atmosphere/not-a-source-atmosphere-block', 'target atmosphere block %r -> %r' % (nm, got))
+                    if c.refute_path('atmosphere block -> a source atmosphere block') == 'sat':
+                        fail('atmosphere/not-a-source-atmosphere-block', 'target atmosphere block %r -> %r' % (nm, got))
                 else:
                     f = nearest_col(s, s.atmblocks[got], t, k)
                     distinct.add(('atmcol', z3.simplify(f).hash()))
@@ -239,13 +239,16 @@ def check_mapping(c, s, t, sgeo, tgeo, mapping, colmap, distinct, fail):
                         fail('atmosphere/not-nearest-column', 'target atmosphere block %r -> %r which is not over the nearest column' % (nm, got))
             continue
         if nm not in t.under:
-            c.prove(False, 'target block list holds only oracle-known names'); fail('unknown-target-block', repr(nm)); continue
+            if c.refute_path('target block list holds only oracle-known names') == 'sat': fail('unknown-target-block', repr(nm))
+            continue
         li, k = t.under[nm]
         got = mapping.get(nm)
         if got is None:
-            c.prove(False, 'mapping is total on underground blocks'); fail('not-total', 'underground block %r has no image' % nm); continue
+            if c.refute_path('mapping is total on underground blocks') == 'sat': fail('not-total', 'underground block %r has no image' % nm)
+            continue
         if got not in s.under:
-            c.prove(False, 'image is an underground source block name'); fail('image-not-a-source-block', '%r -> %r' % (nm, got)); continue
+            if c.refute_path('image is an underground source block name') == 'sat': fail('image-not-a-source-block', '%r -> %r' % (nm, got))
+            continue
         sl, sc = s.under[got]
         f = z3.And(exists(s, sl, sc), nearest_col(s, sc, t, k), expected_layer(s, sc, sl, t, li))
         distinct.add(('image', z3.simplify(f).hash()))
@@ -261,7 +264,8 @@ def check_mapping(c, s, t, sgeo, tgeo, mapping, colmap, distinct, fail):
         for k, cn in enumerate(t.colname):
             got = colmap.get(cn)
             if got not in s.colname:
-                c.prove(False, 'column mapping is total'); fail('column-mapping-not-total', repr(cn)); continue
+                if c.refute_path('column mapping is total') == 'sat': fail('column-mapping-not-total', repr(cn))
+                continue
             f = nearest_col(s, s.colname.index(got), t, k)
             if c.prove(f, 'column mapping -> nearest source column') == 'sat':
                 fail('column-mapping/not-nearest', '%r -> %r' % (cn, got))
@@ -286,8 +290,8 @@ def task_map(sshape, tshape, sa, ta, conv, surf, rel):
         try:
             mapping, colmap = sgeo.block_mapping(tgeo, True)
         except Exception as ex:
-            c.prove(False, 'block_mapping raises no exception')
-            fail('atm_src%d_tgt%d/%s' % (sa, ta, type(ex).__name__), 'block_mapping raised %s: %s' % (type(ex).__name__, ex))
+            if c.refute_path('block_mapping raises no exception') == 'sat':
+                fail('atm_src%d_tgt%d/%s' % (sa, ta, type(ex).__name__), 'block_mapping raised %s: %s' % (type(ex).__name__, ex))
             return 'raised'
         check_mapping(c, s, t, sgeo, tgeo, mapping, colmap, distinct, fail)
         if len(samples) < 1:
@@ -309,13 +313,13 @@ def task_self(shape, atm, conv, surf):
         try:
             mapping = geo.block_mapping(geo)
         except Exception as ex:
-            c.prove(False, 'block_mapping raises no exception')
-            failures.append(dict(key='self-mapping/%s' % type(ex).__name__, what=name + ': raised %s' % ex,
-                                 replay=model_numbers(c.failures[-1]['model'], [g], dict(fn='self'))))
+            if c.refute_path('block_mapping raises no exception') == 'sat':
+                failures.append(dict(key='self-mapping/%s' % type(ex).__name__, what=name + ': raised %s' % ex,
+                                     replay=model_numbers(c.failures[-1]['model'], [g], dict(fn='self'))))
             return 'raised'
         bad = [nm for nm in geo.block_name_list if mapping.get(nm) != nm]
         if block_list_check(c, geo, g, distinct) == 'sat' or \
-           c.prove(z3.BoolVal(not bad), 'self-mapping is the identity on every block') == 'sat':
+           c.holds(not bad, 'self-mapping is the identity on every block') == 'sat':
             failures.append(dict(key='self-mapping/not-identity', what='%s: %r' % (name, [(b, mapping.get(b)) for b in bad][:4]),
                                  replay=model_numbers(c.failures[-1]['model'], [g], dict(fn='self'))))
         if len(samples) < 1: samples.append(dict(task=name, blocks=len(geo.block_name_list)))
@@ -357,11 +361,11 @@ def task_incon(sshape, tshape, sa, ta, conv, surf, rel, nvar):
             inc.transfer_from(src, sgeo, tgeo)
             mapping, colmap = sgeo.block_mapping(tgeo, True)
         except Exception as ex:
-            c.prove(False, 'transfer_from raises no exception')
-            fail(type(ex).__name__, 'raised %s: %s' % (type(ex).__name__, ex))
+            if c.refute_path('transfer_from raises no exception') == 'sat':
+                fail(type(ex).__name__, 'raised %s: %s' % (type(ex).__name__, ex))
             return 'raised'
         tn = list(tgeo.block_name_list)
-        if c.prove(z3.BoolVal(inc.blocklist == tn), 'result holds exactly the target blocks, in target order') == 'sat':
+        if c.holds(inc.blocklist == tn, 'result holds exactly the target blocks, in target order') == 'sat':
             fail('block-list', 'result blocks %r, target blocks %r' % (inc.blocklist[:6], tn[:6]))
             return 'checked'
         for nm in tn:
@@ -384,7 +388,7 @@ def task_incon(sshape, tshape, sa, ta, conv, surf, rel, nvar):
                 lab = 'underground state = state of the mapped source block'
                 sub = 'underground-state'
             if want is None or len(got) != len(want):
-                c.prove(False, lab); fail(sub, 'block %r: %d values, expected %s' % (nm, len(got), 'none' if want is None else len(want)))
+                if c.refute_path(lab) == 'sat': fail(sub, 'block %r: %d values, expected %s' % (nm, len(got), 'none' if want is None else len(want)))
                 continue
             f = z3.And(*[E(g) == w for g, w in zip(got, want)])
             distinct.add((lab, z3.simplify(f).hash()))
@@ -400,7 +404,7 @@ def task_incon(sshape, tshape, sa, ta, conv, surf, rel, nvar):
         same = len(before) == len(after) and all(
             b0[0] == b1[0] and len(b0[1]) == len(b1[1]) and all(x is y for x, y in zip(b0[1], b1[1])) and b0[2] is b1[2]
             for b0, b1 in zip(before, after))
-        if c.prove(z3.BoolVal(bool(same)), 'source initial conditions unchanged') == 'sat':
+        if c.holds(bool(same), 'source initial conditions unchanged') == 'sat':
             fail('source-altered', 'source t2incon changed by the transfer')
         if len(samples) < 1:
             samples.append(dict(task=name, target_blocks=len(tn), example=[str(inc[tn[-1]].variable[0])[:80]]))
@@ -455,11 +459,11 @@ def task_data(shape, atm, conv, layout, preserve, rename):
             d2.transfer_from(dat, sgeo, tgeo, top_generator=[topcat], bottom_generator=[botcat],
                              rename_generators=rename, preserve_generation_totals=preserve)
         except Exception as ex:
-            c.prove(False, 'transfer_from raises no exception')
-            fail(type(ex).__name__, 'raised %s: %s' % (type(ex).__name__, ex))
+            if c.refute_path('transfer_from raises no exception') == 'sat':
+                fail(type(ex).__name__, 'raised %s: %s' % (type(ex).__name__, ex))
             return 'raised'
         out = list(d2.generatorlist)
-        if c.prove(z3.BoolVal(len(out) == len(gens)), 'same number of generators') == 'sat':
+        if c.holds(len(out) == len(gens), 'same number of generators') == 'sat':
             fail('generator-count', '%d generators became %d' % (len(gens), len(out)))
             return 'checked'
         def eqnum(a, b):
@@ -468,7 +472,8 @@ def task_data(shape, atm, conv, layout, preserve, rename):
         for (g, kw), snap in zip(gens, snapshot):
             cand = [o for o in out if o.block == snap[1] and o.name == snap[0]]
             if len(cand) != 1:
-                c.prove(False, 'generator kept (block, name)'); fail('generator-lost', '%r:%r not in %r' % (snap[1], snap[0], [(o.block, o.name) for o in out])); continue
+                if c.refute_path('generator kept (block, name)') == 'sat': fail('generator-lost', '%r:%r not in %r' % (snap[1], snap[0], [(o.block, o.name) for o in out]))
+                continue
             o = cand[0]
             parts = [z3.BoolVal(o.type == snap[2] and o.ltab == snap[3] and o.itab == snap[4] and
                                 len(o.time) == len(snap[7]) and len(o.rate) == len(snap[8]) and len(o.enthalpy) == len(snap[9])),
@@ -492,7 +497,7 @@ def task_data(shape, atm, conv, layout, preserve, rename):
         same = len(dat.generatorlist) == len(gens) and all(
             a[:5] == b[:5] and a[5] is b[5] and a[6] is b[6] and all(x is y for x, y in zip(a[7] + a[8] + a[9], b[7] + b[8] + b[9]))
             for a, b in zip(snapshot, after))
-        if c.prove(z3.BoolVal(bool(same)), 'source generators unchanged') == 'sat': fail('source-altered', 'source generators changed')
+        if c.holds(bool(same), 'source generators unchanged') == 'sat': fail('source-altered', 'source generators changed')
         if len(samples) < 1:
             samples.append(dict(task=name, generators=[(o.block, o.name, o.type) for o in out]))
         return 'checked'
@@ -565,6 +570,11 @@ def plan(tier):
 def run(tier, seed, rep):
     _load()
     tasks = plan(tier)
+    # the few long tasks first, so that they do not end up at the tail of the pool
+    heavy = lambda t: 0 if (t[0] is task_data and t[1]['shape'][0] * t[1]['shape'][1] >= 3) or \
+        (t[1].get('sshape', (0, 0, 0))[0] * t[1].get('sshape', (0, 0, 0))[1] >= 6) or \
+        (t[0] is task_self and t[1]['surf'] == 'sym') else 1
+    tasks.sort(key=heavy)
     if seed:
         import random
         random.Random(seed).shuffle(tasks)
